@@ -51,6 +51,12 @@ def _cbv_tasks(tier):
                     continue   # wide multiplier/divider equivalences are beyond the bit-blaster's budget
                 out.append(task(CB, "ob_bin", f"cbv.{kind}.{n}/value@w{w}", ["C01", "C04"], replay="vf.contracts.cbv:replay_bin",
                                 how=kind, name=n, w=w, tier=tier))
+        if w == 8:
+            # debug mode off (claripy.set_debug(False)): the argument checks go away, the values must not change
+            for kind, names in (("method", ["__add__", "__lshift__"]), ("func", cbv.FUNCS2), ("cmpf", ["SLT"])):
+                for n in names:
+                    out.append(task(CB, "ob_bin", f"cbv.{kind}.{n}[debug-off]/value@w{w}", ["C01", "C04"], replay="vf.contracts.cbv:replay_bin",
+                                    how=kind, name=n, w=w, tier=tier, debug=False))
         for n in ["__invert__", "__neg__"]:
             out.append(task(CB, "ob_un", f"cbv.{n}/value@w{w}", ["C01", "C04"], name=n, w=w, tier=tier))
         for n in ["Extract", "ZeroExt", "SignExt", "Concat", "If"]:
